@@ -34,6 +34,9 @@ fn corpus<VS: HSet>() -> Vec<(Registry<VS>, &'static str, u32)> {
 }
 
 fn push_solve<VS: HSet>(sink: &mut Sink, prop: &str, r: &SolveReq<VS>) -> usize {
+    if BUDGET_HITS.load(std::sync::atomic::Ordering::Relaxed) > 10 {
+        return 0;
+    }
     let e = eval_solve(r);
     let calls = e.run.events.iter().filter(|e| matches!(e, Ev::Cancel { .. } | Ev::Choose { .. } | Ev::Deps { .. })).count();
     for (p, w) in &e.failures {
